@@ -98,6 +98,13 @@ type Exec struct {
 	model0calls int
 	fmtApprox   int
 	fixed       []uint64 // concrete re-execution: input values in creation order
+	dom         map[*Term]*byteSet
+	multi       map[*Term]bool
+	anyMulti    bool
+	localSat    int
+	localUnsat  int
+	solGen      int
+	pathCount   int
 	funcs       map[string]int
 	onceDone    map[*Value]bool
 	curStack    string
@@ -122,7 +129,6 @@ func NewExec(p *Program, timeoutMs int) *Exec {
 	ex := &Exec{prog: p}
 	ex.tb = NewTermTable()
 	ex.sol = NewSolver(ex.tb, timeoutMs)
-	ex.sol.Push() // level 1 is the per-path scope
 	ex.shared = map[*ssa.Global]*Value{}
 	ex.sharedIn = map[*ssa.Package]bool{}
 	ex.maxSteps = 20_000_000
@@ -134,7 +140,16 @@ func NewExec(p *Program, timeoutMs int) *Exec {
 func (ex *Exec) Close() { ex.sol.Close() }
 
 func (ex *Exec) resetPath(item WorkItem) {
-	ex.sol.Pop()
+	ex.pathCount++
+	if ex.pathCount%500 == 0 {
+		// terms of finished paths are garbage: start a fresh table and
+		// a clean solver context
+		ex.tb = NewTermTable()
+		ex.sol.tb = ex.tb
+		ex.sol.Reset()
+	} else if ex.sol.Level() > 0 {
+		ex.sol.Pop()
+	}
 	ex.sol.Push()
 	ex.prefix = item.Prefix
 	ex.pos = 0
@@ -162,6 +177,9 @@ func (ex *Exec) resetPath(item WorkItem) {
 	ex.objIDs = nil
 	ex.onceDone = nil
 	ex.curStack = ""
+	ex.dom = map[*Term]*byteSet{}
+	ex.multi = map[*Term]bool{}
+	ex.anyMulti = false
 	ex.chanSeq = 0
 	ex.expectPanic = false
 }
@@ -176,9 +194,14 @@ func (ex *Exec) addPC(c *Term) {
 		return
 	}
 	ex.pc = append(ex.pc, c)
+	ex.notePC(c)
 }
 
 func (ex *Exec) syncPC() {
+	if ex.solGen != ex.sol.Gen {
+		ex.solGen = ex.sol.Gen
+		ex.pcSent = 0
+	}
 	for ; ex.pcSent < len(ex.pc); ex.pcSent++ {
 		ex.sol.Assert(ex.pc[ex.pcSent])
 	}
@@ -186,12 +209,27 @@ func (ex *Exec) syncPC() {
 
 // checkWith asks whether pc ∧ extra is satisfiable; on Sat returns a model.
 func (ex *Exec) checkWith(extra *Term) (Result, *Model) {
+	if r, m, ok := ex.localCheck(extra); ok {
+		return r, m
+	}
 	ex.syncPC()
 	ex.sol.Push()
 	if extra != nil {
 		ex.sol.Assert(extra)
 	}
+	gen := ex.sol.Gen
 	r := ex.sol.Check()
+	if r == Unknown && ex.sol.Gen != gen {
+		// the solver was killed by the watchdog and restarted clean:
+		// retry once on the fresh process
+		ex.sol.Pop()
+		ex.syncPC()
+		ex.sol.Push()
+		if extra != nil {
+			ex.sol.Assert(extra)
+		}
+		r = ex.sol.Check()
+	}
 	var m *Model
 	if r == Sat {
 		m = ex.sol.GetModel(ex.inputs, ex.ufApps)
